@@ -134,6 +134,8 @@ func c15States(seed int64) (states []c15State, genuine map[string][2][]byte) {
 	return
 }
 
+var c15Quick bool
+
 var c15SndTags = []uint32{0, 1, 0xff, 0x100, 0xfffffffe /* replaced by the peer's real tag */, 0x12345678}
 var c15RcvTags = []uint32{0, 0x50, 0xfffffffd /* replaced by the receiver's own tag */, 0x23456789}
 
@@ -172,7 +174,10 @@ func c15Hostile(st c15State, genuine map[string][2][]byte) (out []c15Msg) {
 			}
 			g = c13B64(raw[:14])
 		}
-		for _, s := range c15SndTags {
+		for si, s := range c15SndTags {
+			if c15Quick && si == 1 {
+				continue // quick: one malformed sender tag below 0x100 besides 0 (0xff); thorough: 1 as well
+			}
 			if s == 0xfffffffe {
 				s = peer.C.ourInstanceTag
 			}
@@ -373,6 +378,7 @@ func init() {
 			r.Assumptions = []string{"whether a well-formed first message addressed to another receiver instance binds the peer tag is left open (both accepted)", "hostile messages are genuine messages with rewritten tags"}
 			c15OwnTag(r)
 			c15Extract(r)
+			c15Quick = r.Tier == "quick"
 			states, genuine := c15States(r.Seed)
 			type job struct {
 				st  c15State
